@@ -27,6 +27,7 @@ type VP8LProg struct {
 	LongDist   bool   // use linear (non plane-code) distances too
 	CodeShape  string // "" or balanced | random | deep (codes padded so that 13..15-bit codewords are in use)
 	LongCopies bool   // a third of the backward references copy up to 4096 pixels (9/10 extra length bits)
+	TrivialGrp bool   // with >= 2 groups: about a third of the groups are "trivial" (all five codes single-symbol: one literal colour, zero bits per pixel)
 	Seed       uint64
 }
 
@@ -42,7 +43,7 @@ func (p *VP8LProg) Summary() map[string]any {
 	for _, t := range p.Transforms {
 		tr = append(tr, t.Type)
 	}
-	return map[string]any{"w": p.W, "h": p.H, "transforms": tr, "cache": p.CacheBits, "meta": p.MetaBits, "groups": p.Groups, "style": p.CodeStyle, "ref%": p.RefPct, "cache%": p.CachePct, "lit": p.LitSpread, "shape": p.CodeShape, "longcopies": p.LongCopies}
+	return map[string]any{"w": p.W, "h": p.H, "transforms": tr, "cache": p.CacheBits, "meta": p.MetaBits, "groups": p.Groups, "style": p.CodeStyle, "ref%": p.RefPct, "cache%": p.CachePct, "lit": p.LitSpread, "shape": p.CodeShape, "longcopies": p.LongCopies, "trivialgroups": p.TrivialGrp}
 }
 
 func DrawVP8L(t *rapid.T, maxSide int) *VP8LProg {
@@ -75,6 +76,7 @@ func DrawVP8L(t *rapid.T, maxSide int) *VP8LProg {
 		p.MetaBits = rapid.IntRange(2, 9).Draw(t, "metaBits")
 		p.Groups = rapid.SampledFrom([]int{1, 2, 2, 3, 3, 7, 7, 30, 30, 300, 1100}).Draw(t, "groups")
 		p.UnusedGrp = rapid.Bool().Draw(t, "unusedGroup")
+		p.TrivialGrp = p.Groups >= 2 && rapid.IntRange(0, 2).Draw(t, "trivialGroups") == 0
 	}
 	p.CodeStyle = rapid.SampledFrom([]string{"mixed", "mixed", "simple", "normal", "rle", "maxsym"}).Draw(t, "codeStyle")
 	p.RefPct = rapid.SampledFrom([]int{0, 5, 20, 60}).Draw(t, "refPct")
@@ -518,8 +520,28 @@ func (g *vp8lW) writeImageStream(xsize, ysize int, level0, pureLiterals bool, li
 	total := xsize * ysize
 	var plan []pixAction
 	var planPos []int
+	// trivial groups: every pixel that starts in one of their tiles is the same literal, so that all
+	// five codes of the group have a single symbol (decoders take a zero-bit fast path there)
+	trivial := map[int]uint32{}
+	if level0 && p.TrivialGrp && groups >= 2 {
+		for gi := 0; gi < groups; gi++ {
+			if r.Intn(3) == 0 {
+				trivial[gi] = uint32(r.U64())
+			}
+		}
+		if len(trivial) == groups {
+			delete(trivial, groups-1)
+		}
+		g.stat["trivialgroups"] += len(trivial)
+	}
 	for pos := 0; pos < total; {
 		roll := r.Intn(100)
+		if tv, ok := trivial[groupOf(pos)]; ok {
+			plan = append(plan, pixAction{kind: 0, argb: tv})
+			planPos = append(planPos, pos)
+			pos++
+			continue
+		}
 		switch {
 		case !pureLiterals && pos > 0 && roll < p.RefPct:
 			maxLen := total - pos
@@ -594,13 +616,14 @@ func (g *vp8lW) writeImageStream(xsize, ysize int, level0, pureLiterals bool, li
 	// codes
 	type codes struct{ g, rr, b, a, d *pcode }
 	cs := make([]codes, groups)
+	curTrivial := false
 	keys := func(m map[int]bool, alphabet int) []int {
 		var k []int
 		for s := range m {
 			k = append(k, s)
 		}
 		// add a few unused-but-coded symbols sometimes (codes may cover more than what occurs)
-		if r.Intn(3) == 0 {
+		if !curTrivial && r.Intn(3) == 0 {
 			for i := 0; i < 1+r.Intn(4); i++ {
 				s := r.Intn(alphabet)
 				if !m[s] {
@@ -624,7 +647,7 @@ func (g *vp8lW) writeImageStream(xsize, ysize int, level0, pureLiterals bool, li
 		}
 		k := keys(m, alphabet)
 		var lens []int
-		if p.CodeShape == "deep" && r.Intn(4) > 0 {
+		if !curTrivial && p.CodeShape == "deep" && r.Intn(4) > 0 {
 			// pad the code with symbols that never occur until 15-bit codewords are possible
 			want := minI(alphabet, 17+r.Intn(12))
 			for len(k) < want {
@@ -647,6 +670,7 @@ func (g *vp8lW) writeImageStream(xsize, ysize int, level0, pureLiterals bool, li
 		return buildCode(lens)
 	}
 	for i := range cs {
+		_, curTrivial = trivial[i]
 		cs[i].g = mk(us[i].g, 256+24+cacheSize)
 		cs[i].rr = mk(us[i].rr, 256)
 		cs[i].b = mk(us[i].b, 256)
